@@ -237,4 +237,20 @@ PROPS = {
         "quick": {"budget_s": 100, "chunk": 6, "chunk_timeout_s": 1200},
         "thorough": {"budget_s": 1200, "chunk": 6, "minimise_s": 200, "chunk_timeout_s": 2400},
     },
+    "C09": {
+        "test": "TestC09",
+        "level": "exploration",
+        "world": "A: one real node (Network engine, DAG verifiers, notifier, VDR ambassador, validators, DID store); the workload plays the rest of the network with its own keys",
+        "rule": "each run: two to four did:nuts DIDs and 5-14 seeded events, each a DAG transaction carrying a DID document built and signed by the workload: honest "
+                "(creation, service change, key added, old key removed, controller set / dropped, update by the controller's key, deactivation) or an attack that the DAG "
+                "layer may admit but the VDR must refuse (identifier not the thumbprint of the embedded key; signed by a non-controller's key, by an assertion-only key, "
+                "by a removed key, by a deactivated controller's key; documents breaking each listed method rule), with node restarts at seeded points. Ground truth per "
+                "DID: versions, controllers, capabilityInvocation keys. Distinct = distinct decision hashes; 'measurements' counts each event kind.",
+        "invariants": ["C09.authorised", "C09.keys", "C09.no-effect"],
+        "assumptions": ["controller chains and cycles are not generated (nested controllers have depth and active-controller rules this model does not mirror)",
+                        "honest updates are linear (they succeed the latest version); accepted forks are C10's subject",
+                        "a verification method naming a foreign controller is not among the method rules the property lists: observed (accepted by the node) but not judged"],
+        "quick": {"budget_s": 75, "chunk": 20},
+        "thorough": {"budget_s": 900, "chunk": 20, "minimise_s": 120},
+    },
 }
